@@ -21,7 +21,7 @@ from sim.world import Session, classify, exc_detail, exc_signature, reference_wo
 PROPERTY = "C09"
 SESSIONS = {"quick": 160, "thorough": 4000}
 BUDGET_S = {"quick": 80, "thorough": 1500}
-CAP_S = {"quick": 90, "thorough": 240}
+CAP_S = {"quick": 240, "thorough": 480}
 STAGES = ("logical", "simplified-logical", "tuned-logical", "physical", "simplified-physical", "fused")
 RULE = ("one session = one generated recipe; every target x 6 optimizer stages is lowered, its graph checked by the simulated "
         "scheduler's admission (outputs, closure incl. fused sub-graphs, cycles, key ambiguity, pickling with planner objects forbidden) "
